@@ -119,12 +119,14 @@ Definition justified (cdn : list Z) (perm : list (Z * Z * Z)) (prev : list (op *
                            | _ => None
                            end) p prev
       else
-        let presented := match cookie with Some _ => o_pc ob | None => o_pq ob end in
+        (* the request "carries the secret" if the cookie or the query holds it; which of the two the server looks at
+           (cookie first) is part of the model and checked by `mismatch`, not part of the property *)
         witness (fun e' => match e' with
                            | (Multi p' cred ip' hdr' ccq _ sec, ob') =>
                                if (p' =? p) && negb (cdn_hdr cdn hdr') && (o_status ob' =? 200) && ccq
                                   && perm_lookup perm p' cred ip' && (ip' =? ip)
-                                  && some_eqb presented (Some sec)
+                                  && (some_eqb (match cookie with Some _ => o_pc ob | None => None end) (Some sec)
+                                      || some_eqb (o_pq ob) (Some sec))
                                then o_id ob' else None
                            | _ => None
                            end) p prev
